@@ -1,18 +1,20 @@
-/* C10 environment model: allocator pool + log stubs for src/cache.c.
+/* C10 environment model, part 1: redirects the allocator of src/cache.c.
  *
- * Included by harness/h_c10.c BEFORE src/cache.c is included (it redirects vbi_malloc/vbi_free, which
- * misc.h defines as macros for malloc/free in 0.2 builds, to c10_alloc/c10_free) - part of the claim:
+ * Included by harness/h_c10.c BEFORE src/cache.c.  misc.h defines vbi_malloc/vbi_free as macros for
+ * malloc/free in 0.2 builds (vbi_cache_malloc/vbi_cache_free expand to them); here they are re-pointed to
+ * c10_alloc/c10_free, which harness/h_c10.c defines next to the pool objects (part of the claim):
  *
  *  c10_alloc(size)   size == sizeof(vbi_cache)      -> the one cache object
  *                    size == sizeof(cache_network)  -> one of C10_NN network slots
- *                    else (a page, 88 .. 4504 bytes)-> one of C10_NP page slots
+ *                    else (a page)                  -> one of C10_NP page slots; size must be C10_PSIZE, the
+ *                                                     page size class of the run (VP:alloc_size_is_...)
  *                    never fails; a request with all slots of the class in use ends the path (V_ASSUME:
  *                    "at most C10_NP pages / C10_NN networks alive at once" is a stated bound).
  *  c10_free(p)       NULL is a no-op; p must be a live slot (else VP:free_of_live_object fails: double free /
  *                    free of a foreign pointer); counts frees.
- *  Under CBMC the slots are separate static objects (typed: cache_page / cache_network / vbi_cache, or with
- *  -DC10_EXACT=<bytes> page slots are exact-size byte arrays so that running off the end of an allocation is
- *  a bounds failure); natively every slot is a real malloc(size) block (ASan: exact-size, use-after-free).
+ *  Under CBMC the slots are separate static objects (vbi_cache, cache_network; pages: cache_page header layout +
+ *  C10_DATA body bytes, see the memcpy model in the harness); natively every slot is a real calloc(size) block
+ *  of the exact size (ASan: overflow, use-after-free; LeakSanitizer at exit).
  */
 #ifndef C10_ENV_H
 #define C10_ENV_H
